@@ -107,6 +107,9 @@ func enumCore(ex exclusions, rec *ev.Rec, yield func(Case) bool) {
 								si := slotInfo{}
 								if props {
 									si.props = []string{"item", "n"}
+									if ci.elem == "m" {
+										si.props = []string{"item", "n", "badge"}
+									}
 								}
 								ci.slots[name] = si
 								uses = append(uses, useSpec{name: name, place: place, fallback: fallback})
@@ -230,7 +233,11 @@ func genLeafInfo(t *rapid.T, idx int, elem string, short bool) (compInfo, []useS
 			continue
 		}
 		ci.order = append(ci.order, name)
-		ci.slots[name] = slotInfo{props: rapid.SampledFrom([][]string{nil, {"item"}, {"item", "n"}, {"item", "n"}}).Draw(t, "props")}
+		ps := rapid.SampledFrom([][]string{nil, {"item"}, {"item", "n"}, {"item", "n"}}).Draw(t, "props")
+		if elem == "m" && len(ps) > 0 && rapid.Bool().Draw(t, "badge") {
+			ps = append(append([]string(nil), ps...), "badge")
+		}
+		ci.slots[name] = slotInfo{props: ps}
 		n := rapid.SampledFrom([]int{1, 1, 1, 2}).Draw(t, "uses")
 		for j := 0; j < n; j++ {
 			u := useSpec{name: name, place: rapid.SampledFrom([]string{"wrap", "wrap", "loop", "bare"}).Draw(t, "place"), fallback: rapid.Bool().Draw(t, "fallback")}
@@ -485,7 +492,7 @@ func genOuter(t *rapid.T, b *builder, c *Case, leaves []compInfo, elem, shape st
 				break
 			}
 		}
-		s := b.slotNode(k3, "k3", u, sc, itemX, k3.num())
+		s := b.slotNode(k3, "k3", u, sc, itemX, k3.num(), k3.rec()+".badge")
 		if rapid.Bool().Draw(t, "fwd-wrapped") {
 			return []Node{{K: "el", Tag: "div", M: b.id("k3F"), Kids: []Node{s}}}
 		}
